@@ -5,7 +5,7 @@ import os
 from lib.coqterm import cbytes, clist, cnat, copt
 
 ID = "C17"
-QUICK_N = 1200
+QUICK_N = 600
 THOROUGH_N = 12000
 SHARD = 60
 COQ_PRELUDE = "From MV Require Import Model.CertStore.\n"
